@@ -57,7 +57,7 @@ func init() {
 		Rule: "inputs: (1) exhaustive: four overlapping sibling boxes, the second with one nested child, every assignment of {static, relative z-index:auto, relative z-index -1/0/1, float} to the five boxes (6^5 = 7776 documents); " +
 			"(2) ties: 14-24 overlapping positioned siblings (some nested in plain blocks) with z-indexes from two or three values of one sign, so that one z-index class holds more than 12 contexts; " +
 			"(3) flow: 4-9 static blocks / inline-blocks / spans with text, nested up to 4 deep and pulled over each other, all painted by steps 4 and 7 of one context; " +
-			"(4) random trees of 3-10 boxes, nesting <= 3, block / inline-block / inline, static / relative / absolute, z-index from {-2,-1,-1,0,1,1,2} or auto (also set on 30 % of the non-positioned boxes, where it must be ignored), floats, opacity, translate+scale transforms, overflow:hidden, negative margins and small offsets so that most pairs overlap. " +
+			"(4) random trees of 3-10 boxes, nesting <= 3, block / inline-block / inline, static / relative / absolute, z-index from {-2,-1,-1,0,1,1,2} or auto (also set on 30 % of the non-positioned boxes, where it must be ignored), floats, opacity, translate+scale transforms, overflow:hidden|auto|scroll (one third each), negative margins and small offsets so that most pairs overlap. " +
 			"(5) paged grid: three pages (forced breaks) each holding one competitor box with the same placement out of {static, relative z-index auto/-1/0/1, absolute, opacity}, a position:fixed box declared on any of the three pages before or after the competitor with z-index auto/0/1/-1, a second fixed box on the first or last page with z-index auto/1, all overlapping: every assignment (672 documents); " +
 			"(6) paged: the random trees of (4) with position:fixed as a fourth positioning scheme (at least one fixed box per document, also nested in other boxes and in other fixed boxes), laid out on 1-3 pages by forced breaks before top-level in-flow blocks; every page is judged against Appendix E on its own rendering tree = the boxes laid out on the page plus every fixed box of the other pages (CSS 2.1 9.6.1), in document order, and one reading of the specification must explain all the pages. " +
 			"Every box has unique opaque background, border, text and outline colours. A case is non-trivial when at least three pairs of layers of different boxes with overlapping painted regions were judged against the Appendix E model; distinct = distinct document.",
@@ -96,24 +96,33 @@ func init() {
 		CounterFloors: func(tier string) map[string]int64 {
 			// about 40 % of what the quick tier observes on the unchanged tree (seed 1)
 			m := map[string]int64{
-				"pairs_judged":                   350000,
-				"layer_pairs_judged":             60000,
-				"judged_class_neg":               100000,
-				"judged_class_pos":               100000,
-				"judged_class_zero":              150000,
-				"judged_class_float":             60000,
-				"judged_class_block":             120000,
-				"judged_class_iblock":            20000,
-				"judged_class_inline":            7000,
-				"judged_step7_pairs":             12000,
-				"judged_z_tie":                   25000,
-				"scope_opacity_items":            4000,
-				"scope_clip_items":               1500,
-				"scope_transform_items":          3000,
-				"outline_items":                  40000,
-				"groups_composited":              500,
-				"scope_clip_outline_items":       300,
-				"zindex_on_static_context_boxes": 100,
+				"pairs_judged":             350000,
+				"layer_pairs_judged":       60000,
+				"judged_class_neg":         100000,
+				"judged_class_pos":         100000,
+				"judged_class_zero":        150000,
+				"judged_class_float":       60000,
+				"judged_class_block":       120000,
+				"judged_class_iblock":      20000,
+				"judged_class_inline":      7000,
+				"judged_step7_pairs":       12000,
+				"judged_z_tie":             25000,
+				"scope_opacity_items":      4000,
+				"scope_clip_items":         1500,
+				"scope_transform_items":    3000,
+				"outline_items":            40000,
+				"groups_composited":        500,
+				"scope_clip_outline_items": 300,
+				// overflow clipping per keyword (hidden / auto / scroll all clip the sub-tree, CSS 2.1 11.1.1);
+				// "plain_cut": the item really overflows the padding box of a box that is a stacking context
+				// for no other reason than its overflow
+				"scope_clip_hidden_items":           800,
+				"scope_clip_auto_items":             800,
+				"scope_clip_scroll_items":           800,
+				"scope_clip_hidden_plain_cut_items": 250,
+				"scope_clip_auto_plain_cut_items":   250,
+				"scope_clip_scroll_plain_cut_items": 250,
+				"zindex_on_static_context_boxes":    100,
 				// paged documents with fixed boxes (families 5 and 6)
 				"paged_docs":                 550,
 				"fixed_box_items":            16000,
@@ -429,6 +438,8 @@ func (j *judge) run() {
 		// clip scope
 		var wantClips []rect
 		var wantWho []int
+		var wantKind []string
+		var wantPlain []bool // the clipping box is a stacking context for no other reason than its overflow
 		for k, a := range append(append([]*Node(nil), ni.anc...), n) {
 			if !a.Ov {
 				continue
@@ -445,6 +456,8 @@ func (j *judge) run() {
 			pad := rect{alb.Border.X0 + bd, alb.Border.Y0 + bd, alb.Border.X1 - bd, alb.Border.Y1 - bd}
 			wantClips = append(wantClips, actm.rect(pad))
 			wantWho = append(wantWho, a.ID)
+			wantKind = append(wantKind, a.ovKeyword())
+			wantPlain = append(wantPlain, !(a.opacity() < 1 || a.Tr != nil || (a.positioned() && a.Z != nil)))
 		}
 		used := make([]bool, len(it.Clips))
 		for k, w := range wantClips {
@@ -456,7 +469,7 @@ func (j *judge) run() {
 				}
 			}
 			if !found {
-				j.fail("scope-clip", "%s is painted outside the clip of b%d (overflow:hidden, padding box %s); clips in force: %v", it.Key, wantWho[k], w, clipRects(it.Clips))
+				j.fail("scope-clip", "%s is painted outside the clip of b%d (overflow:%s, padding box %s); clips in force: %v", it.Key, wantWho[k], wantKind[k], w, clipRects(it.Clips))
 				return
 			}
 		}
@@ -471,8 +484,20 @@ func (j *judge) run() {
 			if c.R.inter(it.Outer).near(it.Outer) {
 				continue
 			}
-			j.fail("scope-clip", "%s (region %s) is cut by a clip %s that belongs to none of its overflow:hidden ancestors %v", it.Key, it.Outer, c.R, wantWho)
+			j.fail("scope-clip", "%s (region %s) is cut by a clip %s that belongs to none of its overflow (hidden/auto/scroll) ancestors %v", it.Key, it.Outer, c.R, wantWho)
 			return
+		}
+		for k, w := range wantClips {
+			// per overflow keyword; "_cut": the item really overflows that padding box (the clip is
+			// what keeps part of it from being painted); "_plain": the clipping box is a stacking
+			// context for no other reason (no opacity / transform / positioned z-index)
+			res.Count("scope_clip_"+wantKind[k]+"_items", 1)
+			if !w.inter(it.Outer).near(it.Outer) {
+				res.Count("scope_clip_"+wantKind[k]+"_cut_items", 1)
+				if wantPlain[k] {
+					res.Count("scope_clip_"+wantKind[k]+"_plain_cut_items", 1)
+				}
+			}
 		}
 		if len(wantClips) > 0 {
 			res.Count("scope_clip_items", 1)
